@@ -1,5 +1,5 @@
 """property id -> rules, explanation of what is / is not decided"""
-from rules import r_hist, r_lock, r_errdrop, r_coord, r_keyid, r_opcode, r_doaction, r_cancel, r_idle, r_loop, r_traverse, r_repeat, r_chv2, r_wait, r_macro, r_seq, r_override, r_reload, r_pipeline, r_dynmacro, r_vkey, r_layers, r_panic, r_prodcons, r_span, r_rec, r_evict, r_coordspace, r_loopvar, r_depth, r_countdown, r_accessor, r_scratch, r_sticky, r_buildall, r_tickorder, r_custom, r_statesorder, r_srckeys, r_iterwhole, r_boolshort, r_argnames, r_nametable
+from rules import r_hist, r_lock, r_errdrop, r_coord, r_keyid, r_opcode, r_doaction, r_cancel, r_idle, r_loop, r_traverse, r_repeat, r_chv2, r_wait, r_macro, r_seq, r_override, r_reload, r_pipeline, r_dynmacro, r_vkey, r_layers, r_panic, r_prodcons, r_span, r_rec, r_evict, r_coordspace, r_loopvar, r_depth, r_countdown, r_accessor, r_scratch, r_sticky, r_buildall, r_tickorder, r_custom, r_statesorder, r_srckeys, r_iterwhole, r_boolshort, r_argnames, r_nametable, r_heldscan
 
 PROPS = {
     "C01": {
@@ -67,8 +67,8 @@ PROPS = {
                        "millisecond — functions of run-time values",
     },
     "C05": {
-        "rules": [r_wait.run_all, r_evict.run_c05, r_tickorder.rule_wait_gate, r_tickorder.rule_tick_together, r_wait.rule_lookahead, r_traverse.run_rebuild, r_wait.rule_slot_index, r_countdown.rule_nowrap, r_idle.run_only("WaitingState", "TapDanceEagerState", "LastPressTracker"), r_wait.rule_scan_order, r_tickorder.rule_overflow_all],
-        "explanation": "Decides: (R-WAIT) each waiting_into_hold/tap/timeout clears its slot on every path before do_action (a "
+        "rules": [r_wait.run_all, r_evict.run_c05, r_tickorder.rule_wait_gate, r_tickorder.rule_tick_together, r_wait.rule_lookahead, r_traverse.run_rebuild, r_wait.rule_slot_index, r_countdown.rule_nowrap, r_idle.run_only("WaitingState", "TapDanceEagerState", "LastPressTracker"), r_wait.rule_scan_order, r_tickorder.rule_overflow_all, r_heldscan.rule_while_held],
+        "explanation": "Session 6: (R-HT-WHILE-HELD) every scan of the event queue started by an early trigger of handle_hold_tap is bounded to what was queued while the key was held (iter -> take), so events behind the key's own release cannot turn a finished tap into a hold; (R-EVICT, path form) an evicted element is consumed on every path to a return, not just on some. Decides: (R-WAIT) each waiting_into_hold/tap/timeout clears its slot on every path before do_action (a "
                        "decision is consumed once) and performs an action whose provenance is exactly the hold / tap / "
                        "timeout_action field; Layout::tick and process_extra_waitings dispatch the four WaitingAction variants to "
                        "the same callees; (R-WAIT-OUTCOME) in handle_hold_tap, Hold is built only inside a HoldTapConfig arm (early "
@@ -172,12 +172,12 @@ PROPS = {
                        "scroll states, recorded macros is deliberately retained); file index selection arithmetic",
     },
     "C16": {
-        "rules": [r_pipeline.run, r_pipeline.run_template, r_pipeline.run_vars, r_pipeline.run_layer_lists, r_sticky.run, r_pipeline.run_rawmatch, r_buildall.run_for("C16"), r_span.rule_own_text, r_pipeline.run_vars_passed],
+        "rules": [r_pipeline.run, r_pipeline.run_template, r_pipeline.run_vars, r_pipeline.run_layer_lists, r_sticky.run, r_pipeline.run_rawmatch, r_buildall.run_for("C16"), r_span.rule_own_text, r_pipeline.run_vars_passed, r_layers.rule_fill],
         "explanation": "Narrow: decides the ordering preconditions of transparent indirection — the pre-processing stages are chained "
                        "include -> platform -> env -> template, each consuming the previous stage's result (data-flow order of the "
                        "and_then chain), parse_vars runs after pre-processing and dominates every parser that (transitively) "
                        "resolves variables, and parse_aliases dominates parse_layers."
-                       ' Added in session 4: (R-PIPELINE) platform / environment filters run before and after template expansion; (R-SPAN-OWN-TEXT); (R-VARS-PASSED) functions that have the variable table pass it on.',
+                       ' Added in session 4: (R-PIPELINE) platform / environment filters run before and after template expansion; (R-SPAN-OWN-TEXT); (R-VARS-PASSED) functions that have the variable table pass it on. Session 6: (R-FILL, also under C04) a layer written as deflayermap and the same layer written as deflayer get the same default fill - a defsrc key the map leaves out stays transparent, it is not turned into a no-op by block-unmapped-keys.',
         "not_decided": "that a rewritten configuration behaves identically; substitution semantics inside templates and variables "
                        "(e.g. simultaneous vs sequential parameter substitution) — relations between two programs",
     },
